@@ -241,8 +241,8 @@ class Sched:
             return ("abort", type(e).__name__)
         except StepBudgetExceeded:
             return ("budget", None)
-        except Exception as e:  # noqa: BLE001
-            return ("exc", e)
+        except BaseException as e:  # noqa: BLE001 - SystemExit / KeyboardInterrupt raised by the code under test
+            return ("exc", e)      # are outcomes of the operation too (the injected aborts were handled above)
 
     def _traced_file(self, fn: str) -> bool:
         ok = self._file_ok.get(fn)
